@@ -313,7 +313,10 @@ Definition pnum_fin (x : num) : bool :=
                      else if nm mod 10 ^ (- ne) =? 0 then in_i64 (nm / 10 ^ (- ne)) else true
   | NLit _ => true
   end.
-Definition ctrl_fin (c : control) : bool := match c with CParam _ v => pnum_fin v | _ => true end.
+(* vlsir.spice.Save.SaveMode has the members NONE and ALL only (Hdl21Gen.C17Tables.vlsir_save_modes): the schema
+   cannot carry SaveMode.SELECTED *)
+Definition ctrl_fin (c : control) : bool :=
+  match c with CParam _ v => pnum_fin v | CSave (TMode MSelected) => false | _ => true end.
 Definition attr_fin (a : attr) : bool :=
   match a with AtAn x => an_fin x | AtCtrl c => ctrl_fin c
              | AtOpt _ (VNum x) => pnum_fin x | AtOpt _ (VBool _) => true end.
@@ -323,6 +326,17 @@ Fixpoint flat_mods (m : hmod) : list (N * string) :=
   match m with HMod i n kids => (i, n) :: flat_map flat_mods kids end.
 Definition names_consistent (l : list (N * string)) : bool :=
   forallb (fun a => forallb (fun b => Bool.eqb (N.eqb (fst a) (fst b)) (String.eqb (snd a) (snd b))) l) l.
+
+(* representation invariants of the abstract hierarchy (an hmod is the unfolding of a graph of Python Module
+   objects): an identity stands for one object, hence carries one name, and no Module instantiates itself *)
+Definition ids_functional (l : list (N * string)) : bool :=
+  forallb (fun a => forallb (fun b => implb (N.eqb (fst a) (fst b)) (String.eqb (snd a) (snd b))) l) l.
+Fixpoint acyclic (m : hmod) : bool :=
+  match m with
+  | HMod i _ kids => negb (existsb (N.eqb i) (map fst (flat_map flat_mods kids))) && forallb acyclic kids
+  end.
+Definition hier_wf (l : list sim) : bool :=
+  ids_functional (flat_map (fun s => flat_mods (tb_mod (s_tb s))) l) && forallb (fun s => acyclic (tb_mod (s_tb s))) l.
 
 Definition must_accept (s : sim) : bool :=
   one_scalar_port (tb_ports (s_tb s)) && forallb attr_fin (s_attrs s).
